@@ -304,6 +304,13 @@ def check_property(prop, cs, args, seed, lock, write_lock=False):
             known_seen.append(matched["raw"])
             print("KNOWN-FINDING: property=%s %s" % (prop, matched["what"] or matched["raw"]))
             continue
+        statement_level = [f for f in fl if ("/S:" in f["name"] or "S:" in f["name"].split("/")[-1] or "/raises/" in f["name"] or "/ownership/" in f["name"] or "/C02:" in f["name"])]
+        if not found and not statement_level:
+            # only helper obligations (C: invariants, hints, lemmas) fail and the bounded native search of the real code finds
+            # no violation of the statement: the proof no longer fits the code -> undecided, not an alarm
+            messages.append("UNDECIDED %s: helper obligations no longer hold (%s) and the native search found no failing input" % (cname, ", ".join(f["name"] for f in fl[:3])))
+            rc = max(rc, 2)
+            continue
         violations.append({"contract": cname, "obligations": [f["name"] for f in fl], "replay": path, "found": found,
                            "detail": detail})
     # a function that can no longer be brought under its contract (changed beyond the verified
